@@ -113,7 +113,7 @@ func (w *World) checkFIFO() {
 		}
 	}
 	// exactly-once delivery in undisturbed runs
-	ns := w.net.Stats
+	ns := w.net.Snapshot()
 	undisturbed := !w.anyConnFault() && w.faults["cancel"] == 0 && ns.DialTimeouts == 0 && ns.Refused == 0 && ns.Resets == 0 && ns.Closes == 0
 	for _, c := range w.calls[1:] {
 		if c.InvokeSeq == 0 || c.ReqVal == "" {
